@@ -53,7 +53,7 @@ class Emitter:
             comment, asm, tr.replace('(*', '( *').replace('*)', '* )'), name, bs, res.coq)
         self.defs.append((name, txt))
         self.names.add(name)
-        self.index[name] = dict(binders=[b for b, _ in used], assumed=sorted(set(it.assumed)), term=res.coq)
+        self.index[name] = dict(binders=[b for b, _ in used], assumed=sorted(set(it.assumed)), term=res.coq, ev=res.ev)
 
 
 # --------------------------------------------------------------------------
@@ -137,7 +137,8 @@ def daun_interp(path):
         if kwargs or not (isinstance(A, Mx) and isinstance(b, Mx) and b.vec and not A.vec and A.r == A.c == b.c):
             raise Unsupported('nnls call shape')
         it.bind('nnls', "'M[F]_(%s) -> 'rV[F]_(%s) -> 'rV[F]_(%s)" % (A.r.coq(), A.r.coq(), A.r.coq()))
-        return (Mx('nnls %s %s' % (A.p(), b.p()), 1, A.c, vec=True), None)
+        return (Mx('nnls %s %s' % (A.p(), b.p()), 1, A.c, vec=True,
+                   ev=lambda env: env['nnls'](A.ev(env), b.ev(env))), None)
 
     it = Interp(path, stubs={'local._bs_daun': bs_daun, 'local._load_bs': load_bs, 'local._save_bs': save_bs,
                              'scipy.linalg.toeplitz': toeplitz, 'scipy.optimize.nnls': nnls},
